@@ -95,6 +95,22 @@ class CmsDriver:
             self.feats.add("alt_api")
         if self.cls in ("hh", "st") and self.nops % 7 == 0:
             self._refused()
+        if self.cls == "cms" and self.nops % 7 == 0:
+            # calls that fail on invalid input (a hash list longer than the sketch is deep, an amount that is no number): which
+            # exception is raised is not specified, but the caller carries on - the model ignores the call, all oracles apply as before
+            k0 = self.pool[self.nops % len(self.pool)]
+            too_long = o.hashes(k0, self.d + 2)
+            for fn, args in ((o.add_alt, (too_long, 3)), (o.add_alt, (o.hashes(k0), None)), (o.remove_alt, (too_long, 2)),
+                             (o.remove_alt, (o.hashes(k0), None))):
+                try:
+                    fn(*args)
+                    ctx.feat("invalid_call_accepted")
+                    self.feats.add("invalid_call_accepted")
+                except Exception:  # noqa
+                    pass
+            if "invalid_call_accepted" not in self.feats:
+                self.feats.add("refused_invalid_calls")
+                self.verify("after refused add_alt/remove_alt calls (too long a hash list, amount None)")
         if kind == "add":
             n = op[2]
             if self.total + n >= 2 ** 31 - 1:
